@@ -580,7 +580,12 @@ spiftool_num_words(const spif_charptr_t str)
           default:
               delim = 0;
         }
-        for (; str[i] && !IS_DELIM(str[i]); i++);
+        for (; str[i] && !IS_DELIM(str[i]); i++) {
+            /* A backslash-escaped quote belongs to the word, exactly as in spiftool_get_word(). */
+            if (str[i] == '\\' && (str[i + 1] == '\'' || str[i + 1] == '\"')) {
+                i++;
+            }
+        }
         switch (str[i]) {
           case '\"':
           case '\'':
